@@ -2,7 +2,10 @@
 
 package gomatrixserverlib
 
-import "github.com/matrix-org/gomatrixserverlib/spec"
+import (
+	"github.com/matrix-org/gomatrixserverlib/spec"
+	"golang.org/x/crypto/ed25519"
+)
 
 // vpC09State builds an auth state: create (by Carol), join rules, power levels (Carol's level, invite threshold),
 // Carol joined, optional memberships of Alice and Bob.
@@ -26,6 +29,14 @@ func vpC09Build(ver RoomVersion) *vpC09State {
 	pl := vpJObj("users", vpJObj(vpCarol, vpNondetI64("lvl.carol"), vpBob, vpNondetI64("lvl.bob")), "invite", vpNondetI64("lvl.invite"), "events_default", vpNondetI64("lvl.events_default"))
 	s.events = append(s.events, vpMkEvent(ver, "$pl:y", s.room, vpCarol, spec.MRoomPowerLevels, vpStrPtr(""), pl))
 	s.events = append(s.events, vpMkEvent(ver, "$mc:y", s.room, vpCarol, spec.MRoomMember, vpStrPtr(vpCarol), vpJObj("membership", spec.Join)))
+	// optionally a pending third-party invite (token "tok") issued through an identity server
+	if vpNondetBool("tpi_in_state") {
+		idPub, _ := vpKey("identity-server")
+		k := spec.Base64Bytes(idPub).Encode()
+		s.events = append(s.events, vpMkEvent(ver, "$tpi:y", s.room, vpCarol, spec.MRoomThirdPartyInvite, vpStrPtr("tok"),
+			vpJObj("display_name", "d", "key_validity_url", "https://id.example/valid", "public_key", k,
+				"public_keys", vpJArr(vpJObj("public_key", k, "key_validity_url", "https://id.example/valid")))))
+	}
 	for _, u := range []string{vpAlice, vpBob} {
 		m := vpChoice("member."+u, "", spec.Join, spec.Invite, spec.Leave)
 		if m != "" {
@@ -35,11 +46,32 @@ func vpC09Build(ver RoomVersion) *vpC09State {
 	return s
 }
 
-// vpC09Event: an event by user u: a membership change (join with or without authoriser, leave, knock) or a message.
+// vpC09Signed: the `signed` block of a third-party invite for target, signed by the identity server (or an impostor).
+func vpC09Signed(target string, good bool) []byte {
+	_, priv := vpKey("identity-server")
+	if !good {
+		_, priv = vpKey("impostor")
+	}
+	doc, err := SignJSON("id.example", "ed25519:0", ed25519.PrivateKey(priv), vpJObj("mxid", target, "token", "tok"))
+	vpAssume(err == nil)
+	return doc
+}
+
+// vpC09Event: an event by user u: a membership change (join with or without authoriser, leave, knock; a join or an
+// invite of a third user carrying a third_party_invite block) or a message.
 func vpC09Event(s *vpC09State, name, u string) PDU {
-	kind := vpChoice(name+".kind", "join", "join-via", "leave", "knock", "message")
+	return vpC09EventOfKind(s, name, u, vpChoice(name+".kind", "join", "join-via", "leave", "knock", "message", "join-tpi", "invite-tpi"))
+}
+
+func vpC09EventOfKind(s *vpC09State, name, u, kind string) PDU {
 	id := "$" + name + ":x"
 	switch kind {
+	case "join-tpi":
+		tpi := vpJObj("display_name", "d", "signed", vpC09Signed(u, true))
+		return vpMkEvent(s.ver, id, s.room, u, spec.MRoomMember, vpStrPtr(u), vpJObj("membership", spec.Join, "third_party_invite", tpi))
+	case "invite-tpi":
+		tpi := vpJObj("display_name", "d", "signed", vpC09Signed("@d:x", vpNondetBool(name+".tpi_signature_good")))
+		return vpMkEvent(s.ver, id, s.room, u, spec.MRoomMember, vpStrPtr("@d:x"), vpJObj("membership", spec.Invite, "third_party_invite", tpi))
 	case "join":
 		return vpMkEvent(s.ver, id, s.room, u, spec.MRoomMember, vpStrPtr(u), vpJObj("membership", spec.Join))
 	case "join-via":
@@ -52,14 +84,15 @@ func vpC09Event(s *vpC09State, name, u string) PDU {
 	return vpMkEvent(s.ver, id, s.room, u, "m.room.message", nil, vpJObj("body", "x"))
 }
 
-// vp:check C09 both configs=version:1|7|8|10|11|12 K=12 timeout=900
+// vp:check C09 quick configs=version:1|10|12;first:join|join-via|leave|knock|message|join-tpi|invite-tpi K=12 timeout=900
+// vp:check C09 thorough configs=version:ALLVERSIONS;first:join|join-via|leave|knock|message|join-tpi|invite-tpi K=12 timeout=1800
 // vp_C09_reuse: the verdict for an event checked through a reused checker (after another event was checked and the
 // checker was updated with the same provider, as state resolution does) equals the verdict of a fresh check.
 func vp_C09_reuse() {
 	ver := RoomVersion(vpConfig("version"))
 	s := vpC09Build(ver)
 	auth, _ := NewAuthEvents(s.events)
-	e1 := vpC09Event(s, "e1", vpAlice)
+	e1 := vpC09EventOfKind(s, "e1", vpAlice, vpConfig("first"))
 	e2 := vpC09Event(s, "e2", vpBob)
 	rid, _ := spec.NewRoomID(s.room)
 
@@ -97,13 +130,14 @@ func vp_C09_reuse() {
 	vpReach("both-reject", !reused && !fresh)
 }
 
-// vp:check C09 both configs=version:1|7|10|12 K=12 timeout=900
+// vp:check C09 quick configs=version:1|10|12;kind:join|join-via|leave|knock|message|join-tpi|invite-tpi K=12 timeout=900
+// vp:check C09 thorough configs=version:ALLVERSIONS;kind:join|join-via|leave|knock|message|join-tpi|invite-tpi K=12 timeout=1800
 // vp_C09_frame: the verdict does not depend on the order in which auth events were added to the provider, nor on
 // state whose (type, state_key) StateNeededForAuth does not name for the event, and repeated evaluation agrees.
 func vp_C09_frame() {
 	ver := RoomVersion(vpConfig("version"))
 	s := vpC09Build(ver)
-	e := vpC09Event(s, "e", vpBob)
+	e := vpC09EventOfKind(s, "e", vpBob, vpConfig("kind"))
 	p1, _ := NewAuthEvents(s.events)
 	// reverse order plus unrelated state (topic, and the membership of a user the event does not involve)
 	p2, _ := NewAuthEvents(nil)
